@@ -248,6 +248,9 @@ Definition quoted_prefix_raw (q : bytes) : R (option bytes) :=
   end.
 
 (* ---------------------------------------------------------------- lexer *)
+(* parser.Term: a text run or the wildcard symbol `*` *)
+Inductive term := TmText (d : bytes) | TmSym.
+
 Record ltok := mkTok { t_txt : bytes; t_quoted : bool; t_raw : bool; t_space : bool }.
 
 Section Lex.
@@ -463,6 +466,58 @@ Section Lex.
      3 any other type (exists, object, tags, nested) *)
   Variable ftype : bytes -> N.
 
+  (* unicode.ToLower (rune-wise, as strings.ToLower applies it) and conf.CaseSensitive *)
+  Variable to_lower : N -> N.
+  Variable case_sensitive : bool.
+
+  (* strings.ToLower on a (valid UTF-8) term text: every rune mapped and re-encoded *)
+  Fixpoint lower_loop (fuel : nat) (s acc : bytes) : R bytes :=
+    match fuel with
+    | 0 => RFuel
+    | S f =>
+      match s with
+      | [] => ROk acc
+      | _ => let '(r, sz) := decode s in lower_loop f (skipn sz s) (acc ++ encode_rune (to_lower r))
+      end
+    end.
+  Definition lower (s : bytes) : R bytes := lower_loop (S (length s)) s [].
+
+  (* newTextTermCaseSensitive(data, sens) *)
+  Definition text_term (sens : bool) (d : bytes) : R term :=
+    if sens then ROk (TmText d) else do l <- lower d; ROk (TmText l).
+
+  (* `if data := b.String(); data != "" { terms = append(terms, text term) }` *)
+  Definition flush_term (sens : bool) (buf : bytes) (acc : list term) : R (list term) :=
+    match buf with
+    | [] => ROk acc
+    | _ => do t <- text_term sens buf; ROk (acc ++ [t])
+    end.
+
+  (* parseSeqQLKeyword(token, sens): the Terms of a keyword/path literal, and of a range bound *)
+  Fixpoint keyword_terms_loop (fuel : nat) (sens : bool) (s buf : bytes) (acc : list term)
+    : R (list term) :=
+    match fuel with
+    | 0 => RFuel
+    | S f =>
+      match s with
+      | [] => flush_term sens buf acc
+      | _ => let '(r, sz) := decode s in
+             if N.eqb r wildcardRune then
+               do acc1 <- flush_term sens buf acc;
+               keyword_terms_loop f sens (skipn sz s) [] (acc1 ++ [TmSym])
+             else keyword_terms_loop f sens (skipn sz s) (buf ++ encode_rune r) acc
+      end
+    end.
+  Definition keyword_terms (sens : bool) (s : bytes) : R (list term) :=
+    match s with
+    | [] => ROk [TmText []]
+    | _ => keyword_terms_loop (S (length s)) sens s [] []
+    end.
+
+  (* caseSensitive of parseSeqQLFieldFilter: the configuration, or the field _exists_ *)
+  Definition exists_name : bytes := [95; 101; 120; 105; 115; 116; 115; 95]%N.
+  Definition field_sens (name : bytes) : bool := case_sensitive || bytes_eqb name exists_name.
+
   (* parseFulltextSearchFilter: one token of the token-level alphabet *)
   Definition fulltext (t : N) (ts : list ltok) : R (tok * list ltok) :=
     do st <- parse_composite ts;
@@ -498,21 +553,30 @@ Section Lex.
     if negb (is_kw kw_rp (cur ts3)) then RErr
     else ROk (TLP :: es ++ [TRP], tl ts3).
 
-  (* parseRangeTerm *)
-  Definition range_term (ts : list ltok) : R (list ltok) :=
+  (* parseRangeTerm: the bound is the single term parseSeqQLKeyword makes of the value *)
+  Definition range_bound (sens : bool) (value : bytes) : R term :=
+    do terms <- keyword_terms sens value;
+    match terms with
+    | [t] => ROk t
+    | [] => ROk (TmText [])
+    | _ => RErr
+    end.
+  Definition range_term (sens : bool) (ts : list ltok) : R (term * list ltok) :=
     do st <- parse_composite ts;
     let '(value, ts') := st in
-    do k <- kw_terms value;
-    if Nat.leb k 1 then ROk ts' else RErr.
+    do t <- range_bound sens value;
+    ROk (t, ts').
 
-  (* parseSeqQLTokenRange: one leaf *)
-  Definition token_range (ts : list ltok) : R (list ltok) :=
+  (* parseSeqQLTokenRange: From, To and the rest (IncludeFrom / IncludeTo are not modelled) *)
+  Definition token_range (sens : bool) (ts : list ltok) : R (term * term * list ltok) :=
     if negb (is_kws [kw_lp; kw_lb] (cur ts)) then RErr else
-    do ts1 <- range_term (tl ts);
+    do st1 <- range_term sens (tl ts);
+    let '(from, ts1) := st1 in
     if negb (is_kws [kw_comma; kw_to] (cur ts1)) then RErr else
-    do ts2 <- range_term (tl ts1);
+    do st2 <- range_term sens (tl ts1);
+    let '(to, ts2) := st2 in
     if negb (is_kws [kw_rp; kw_rb] (cur ts2)) then RErr else
-    ROk (tl ts2).
+    ROk (from, to, tl ts2).
 
   (* parseSeqQLFieldFilter *)
   Definition field_filter (ts : list ltok) : R (list tok * list ltok) :=
@@ -529,10 +593,29 @@ Section Lex.
         let ts2 := tl ts1 in
         if is_kw [] (cur ts2) then RErr
         else if is_kws [kw_lb; kw_lp] (cur ts2) then
-          do ts3 <- token_range ts2; ROk ([TAtom 0], ts3)
+          do st3 <- token_range (field_sens name) ts2; let '(_, ts3) := st3 in ROk ([TAtom 0], ts3)
         else if is_kw kw_in (cur ts2) then filter_in t (tl ts2)
         else do st2 <- fulltext t ts2; let '(e, ts3) := st2 in ROk ([e], ts3)
     end.
+
+  (* views used by the correspondence: the bounds of a query that is one range filter  f:[a, b]
+     and the terms of a query that is one keyword literal  f:v *)
+  Definition range_view (lts : list ltok) : R (term * term) :=
+    do st <- parse_composite lts;
+    let '(name0, ts1) := st in
+    let name := replace_wild name0 in
+    if negb (is_kw kw_colon (cur ts1)) then RErr else
+    do st3 <- token_range (field_sens name) (tl ts1);
+    let '(b, rest) := st3 in
+    match rest with [] => ROk b | _ => RErr end.
+  Definition literal_view (lts : list ltok) : R (list term) :=
+    do st <- parse_composite lts;
+    let '(name0, ts1) := st in
+    let name := replace_wild name0 in
+    if negb (is_kw kw_colon (cur ts1)) then RErr else
+    do st2 <- parse_composite (tl ts1);
+    let '(value, rest) := st2 in
+    match rest with [] => keyword_terms (field_sens name) value | _ => RErr end.
 
   (* ---------------------------------------------------------------- pipes *)
   (* parseFieldList: for !IsKeywords("|", "") { composite; if "," { Next; trailing = true } } *)
